@@ -325,17 +325,40 @@ pub fn panic_sig(desc: &str) -> String {
     format!("{}/{}", file, short.replace(' ', "_"))
 }
 
+/// Properties whose statement implies that the exercised library calls return (a value or an
+/// error) on every generated case: a panic raised inside the library there is a violation.
+const TOTALITY_PROPS: [&str; 10] = ["C03", "C04", "C05", "C10", "C13", "C14", "C16", "C17", "C19", "C20"];
+
 fn call<C>(f: &(dyn Fn(&C, &Rec) -> R + Sync), c: &C, rec: &Rec) -> R {
     match no_panic(|| f(c, rec)) {
         Ok(r) => r,
-        Err(desc) => Err(Fail::new(
-            format!("harness-panic/{}", panic_sig(&desc)),
-            format!("panic while evaluating the case: {}", desc),
-        )),
+        Err(desc) => {
+            // where was the panic raised? library sources live under .../zk*-crypto/src/
+            let in_library = desc.rsplit(" @ ").next().map(|loc| loc.contains("-crypto/src/")).unwrap_or(false);
+            Err(Fail::new(
+                format!("{}/{}", if in_library { "library-panic" } else { "harness-panic" }, panic_sig(&desc)),
+                format!("panic while evaluating the case: {}", desc),
+            ))
+        }
     }
 }
 
 impl Ctx {
+    /// Evaluate one case; a panic raised inside the library becomes a violation of this property
+    /// when its statement implies totality of the exercised calls, and INCONCLUSIVE otherwise.
+    fn call_in<C>(&self, f: &(dyn Fn(&C, &Rec) -> R + Sync), c: &C, rec: &Rec) -> R {
+        call(f, c, rec).map_err(|mut fl| {
+            if let Some(rest) = fl.sig.strip_prefix("library-panic/") {
+                fl.sig = if TOTALITY_PROPS.contains(&self.prop.as_str()) {
+                    format!("{}/library-panic/{}", self.prop, rest)
+                } else {
+                    format!("harness-panic/in-library/{}", rest)
+                };
+            }
+            fl
+        })
+    }
+
     pub fn assume(&self, s: &str) {
         let mut a = self.assumptions.lock().unwrap();
         if !a.iter().any(|x| x == s) {
@@ -403,7 +426,7 @@ impl Ctx {
                             if rec.live() {
                                 rec.st.borrow_mut().cases += 1;
                             }
-                            match call(f, &c, &rec) {
+                            match self.call_in(f, &c, &rec) {
                                 Ok(()) => Ok(()),
                                 Err(fail) => {
                                     if self.handle_fail(&rec, &fail) {
@@ -419,7 +442,7 @@ impl Ctx {
                             Ok(()) => None,
                             Err(TestError::Fail(_, value)) => {
                                 rec.frozen.set(true);
-                                let fail = match call(f, &value, &rec) {
+                                let fail = match self.call_in(f, &value, &rec) {
                                     Err(fl) => fl,
                                     Ok(()) => Fail::new(
                                         "non-reproducible",
@@ -474,7 +497,7 @@ impl Ctx {
                                 continue;
                             }
                             rec.st.borrow_mut().cases += 1;
-                            if let Err(fail) = call(f, c, &rec) {
+                            if let Err(fail) = self.call_in(f, c, &rec) {
                                 // an enumeration is run to the end; one case is kept per
                                 // distinct root-cause signature
                                 if !self.handle_fail(&rec, &fail) && viols.len() < 12 && !viols.iter().any(|v| v.fail.sig == fail.sig) {
@@ -534,7 +557,7 @@ impl Ctx {
         let c: C = serde_json::from_value(case.clone())
             .map_err(|e| Fail::new("replay/undecodable-case", e.to_string()))?;
         let rec = Rec::new(self.tier, self.seed);
-        call(f, &c, &rec)
+        self.call_in(f, &c, &rec)
     }
 
     fn write_replay(&self, v: &Violation) -> PathBuf {
